@@ -517,6 +517,9 @@ func (r *resolver) applyDeviation(y *Module, d *Deviation) error {
 			if hasDflt.HasDefault() {
 				return fmt.Errorf("default already set on %s", d.Ident())
 			}
+			if _, single := hasDflt.(HasDefaultValue); single && len(d.Add.Default()) > 1 {
+				return fmt.Errorf("%s - only a leaf-list takes several defaults", SchemaPath(d))
+			}
 			for _, deflt := range d.Add.Default() {
 				hasDflt.addDefault(deflt)
 			}
